@@ -16,19 +16,19 @@ func init() {
 			Explanation: "Decides: C03.local (the consensus functions — round, witness, Lamport timestamp, ancestry, strongly-see, fame, round-received, frame/root/block construction, thresholds, median — and everything they call inside the module, stopping at the Store boundary, read none of the process-local fields (topological indexes, consensus-event counter, pending-loaded counter), call no clock / randomness / OS function and none of the view-dependent store getters), " +
 				"C03.order (no ordered output — Frame.Events, Root.Events, Frame.Peers, block transactions — is filled from a map iteration, from a map-ordered helper result or from a local-arrival-ordered queue without a dominating content-keyed sort), " +
 				"C03.memo (each memo cache is filled only by its wrapper with the wrapped function's result for the same arguments, keyed by ALL parameters, and by InsertFrameEvent / Reset), " +
-				"C03.passstate (non-interference: nothing reachable from InsertEvent reads what the consensus passes write — recorded rounds, RoundInfo, memoised round/witness —, since whatever insertion writes into the DAG summary would then depend on how many passes ran between insertions; on the current tree updateAncestorFirstDescendant does: known finding F-C03-2, differential reproduction in /verif/findings/F-C03-2), " +
+				"C03.timestamp (the frame timestamp is computed from the famous witnesses of the decided round, not from whatever witnesses are registered at the time; shared with C18.prov), C03.passstate (non-interference: nothing reachable from InsertEvent reads what the consensus passes write — recorded rounds, RoundInfo, memoised round/witness —, since whatever insertion writes into the DAG summary would then depend on how many passes ran between insertions; on the current tree updateAncestorFirstDescendant does: known finding F-C03-2, differential reproduction in /verif/findings/F-C03-2), " +
 				"C03.memotime (a necessary condition of batching-independence: the memoised round / witness predicates — whose value depends on which witnesses DivideRounds has registered so far — are never evaluated on the insertion path, only by the consensus passes), C03.canon (frame and round encoders are canonical). " +
 				"NOT decided: independence from cache size, store type and batching of consensus passes (a quantification over configurations of a dynamic process; LRU-eviction dependence of GetRound is a runtime question)."},
-		Rules: []ruleFunc{c03local, c03order, c03memo, c03memotime, c03passstate, func(p *Prog, r *Report) { r.Rule("C03.canon", 2, "canonical encoders"); canonRule(p, r, "C03.canon") }},
+		Rules: []ruleFunc{c03local, c03order, c03memo, c03memotime, c03passstate, func(p *Prog, r *Report) { timestampRule(p, r, "C03.timestamp") }, func(p *Prog, r *Report) { r.Rule("C03.canon", 2, "canonical encoders"); canonRule(p, r, "C03.canon") }},
 	})
 	register(&propDef{
 		ID: "C13", NeedCG: true,
 		Meta: propMeta{Level: "other", Assumptions: commonAssumptions,
 			Explanation: "STRUCTURAL CLAUSES ONLY. Decided: C13.frames (frames are view-independent: the frame-building slice of C03.local / C03.order / C03.canon; roots of silent creators come from LastConsensusEventFrom, never LastEventFrom; ROOT_DEPTH is a constant bounding createRoot's loop), " +
 				"C13.reset (Hashgraph.Reset inserts every frame.SortedFrameEvents() element through InsertFrameEvent — which seeds round / witness / Lamport caches from the frame's values — before storing the block; Node.fastForward re-derives the anchor block's pending membership changes after a successful core reset), " +
-				"C13.resetfields (InmemStore.Reset and Hashgraph.Reset re-initialise every listed piece of state: nothing of the pre-reset chain survives), C13.latest (validators after the reset are the latest recorded set), C13.resetorder (Store.Reset replays frame.PeerSets — a map — in arbitrary order, so PeerSetCache.Set must be insensitive to the order of calls: a peer's first round is lowered when an earlier round arrives later, the round list is re-sorted). " +
+				"C13.resetfields (InmemStore.Reset and Hashgraph.Reset re-initialise every listed piece of state: nothing of the pre-reset chain survives), C13.latest (validators after the reset are the latest recorded set), C13.anchorreceipts (the accepted receipts of the anchor block are applied after the reset: processAcceptedInternalTransactions has no early success exit that depends on state the reset just wrote; shared with C10.everyreceipt), C13.resetorder (Store.Reset replays frame.PeerSets — a map — in arbitrary order, so PeerSetCache.Set must be insensitive to the order of calls: a peer's first round is lowered when an earlier round arrives later, the round list is re-sorted). " +
 				"NOT decided — and said so: that a reset node DELIVERS THE SAME BLOCKS afterwards; that depends on which events arrive after the reset (an event whose other-parent lies below the frame cannot be inserted; the documentation concedes the protocol is not watertight)."},
-		Rules: []ruleFunc{c13frames, c13reset, c13resetfields, func(p *Prog, r *Report) { latestRule(p, r, "C13.latest") }, func(p *Prog, r *Report) { firstRoundRule(p, r, "C13.resetorder") }},
+		Rules: []ruleFunc{c13frames, c13reset, c13resetfields, func(p *Prog, r *Report) { latestRule(p, r, "C13.latest") }, func(p *Prog, r *Report) { firstRoundRule(p, r, "C13.resetorder") }, func(p *Prog, r *Report) { everyReceiptRule(p, r, "C13.anchorreceipts") }},
 	})
 }
 
